@@ -108,8 +108,21 @@ func Run(ctx *common.Ctx) int {
 				s.one(data, func() interface{} { return map[string]interface{}{"bytes": l, "content": kind} })
 				// a source with exactly enough bytes
 				src := &seam.Source{Data: data}
-				if _, err := detect.SingleDetect(src, l); err != nil || src.Pos() != l {
+				v0, err := detect.SingleDetect(src, l)
+				if err != nil || src.Pos() != l {
 					ctx.Report("SingleDetect/exact-source", fmt.Sprintf("SingleDetect(%d) on a source of exactly %d bytes: err=%v consumed=%d", l, l, err, src.Pos()), map[string]interface{}{"bytes": l, "content": kind})
+				}
+				// ... whose final Read reports io.EOF together with its bytes (allowed by io.Reader), in one read and in 7-byte reads
+				for _, chunk := range []int{0, 7} {
+					src := &seam.Source{Data: data, EOFWithData: true}
+					if chunk > 0 {
+						src.Policy = func(call, req, rem int) (seam.Answer, bool) { return seam.Answer{N: chunk}, true }
+					}
+					v1, err := detect.SingleDetect(src, l)
+					atomic.AddInt64(&s.evals, 1)
+					if v1 != v0 || (v1 && err != nil) || src.Pos() != l {
+						ctx.Report("SingleDetect/eof-with-last-bytes", fmt.Sprintf("SingleDetect(%d) on a source that returns io.EOF together with the last requested bytes (reads of %d): (%v, %v) consumed=%d; the same bytes from a plain source give verdict %v", l, chunk, v1, err, src.Pos(), v0), map[string]interface{}{"bytes": l, "content": kind})
+					}
 				}
 				continue
 			}
